@@ -28,7 +28,8 @@ SYNTAX_FMT = {'css': (': ', ';'), 'scss': (': ', ';'), 'less': (': ', ';'), 'sas
 OPTION_SPACE = {
     'stylesheet.intUnit': ['px', 'pt'],
     'stylesheet.floatUnit': ['em', 'rem'],
-    'stylesheet.unitAliases': [None, {'e': 'em', 'p': 'pc', 'x': 'ex', 'r': 'rpx'}, {'x': 'vmin'}],
+    # (the last table has the default int / float units as KEYS: a bare number still gets `px` / `em`, not their alias targets)
+    'stylesheet.unitAliases': [None, {'e': 'em', 'p': 'pc', 'x': 'ex', 'r': 'rpx'}, {'x': 'vmin'}, {'px': 'rpx', 'em': 'qem', 'p': '%'}],
     'stylesheet.shortHex': [True, False],
     'stylesheet.between': [None, ':'],
     'stylesheet.after': [None, ' ;'],
